@@ -52,7 +52,7 @@ def binary(name="chk"):
 class Driver:
     """One child process. call() is synchronous; exactly one request is in flight, so a death is attributable."""
 
-    def __init__(self, build_name="chk", watchdog=60.0, env=None):
+    def __init__(self, build_name="chk", watchdog=180.0, env=None):
         self.build_name = build_name
         self.path = binary(build_name)
         self.watchdog = watchdog
@@ -121,7 +121,9 @@ class Driver:
             self.p.stdin.flush()
         except (BrokenPipeError, OSError):
             return self._dead(rid)
-        line = self._readline(time.time() + (watchdog or self.watchdog))
+        # generous wall-clock watchdog (its firing is only ever "inconclusive"): grows with the request size, because a loaded machine
+        # needs seconds just to move and hex-decode a multi-megabyte request
+        line = self._readline(time.time() + (watchdog or self.watchdog) + len(data) / 20000.0)
         if line == "timeout":
             try:
                 self.p.kill()
